@@ -473,7 +473,8 @@ fn ulps_apart(a: f64, b: f64) -> u64 {
 /// NaN payload and the sign of zero; decimals numerically)
 pub fn value_matches(exp: &Value, got: &Value) -> bool {
     match (exp, got) {
-        (Value::Float(a), Value::Float(b)) => (a.is_nan() && b.is_nan()) || a == b,
+        // floats bit for bit (0.0 and -0.0 are different values: 1 / x tells them apart); every NaN is the same NaN
+        (Value::Float(a), Value::Float(b)) => (a.is_nan() && b.is_nan()) || a.to_bits() == b.to_bits(),
         (Value::Decimal(a), Value::Decimal(b)) => a == b,
         (Value::Vec(a), Value::Vec(b)) => a.len() == b.len() && a.iter().zip(b).all(|(x, y)| value_matches(x, y)),
         (Value::Map(a), Value::Map(b)) => {
